@@ -386,6 +386,13 @@ class Normalizer(ast.NodeTransformer):
             return out
         return node
 
+    def visit_UnaryOp(self, node):
+        self.generic_visit(node)
+        if isinstance(node.op, ast.Not) and isinstance(node.operand, ast.Constant) and isinstance(node.operand.value, bool):
+            self.count += 1
+            return ast.copy_location(ast.Constant(value=not node.operand.value), node)
+        return node
+
     def visit_BoolOp(self, node):
         self.generic_visit(node)
         # `True and X` -> X ; `False and X` -> False ; `False or X` -> X ; `True or X` -> True  (leading constants only:
@@ -517,6 +524,35 @@ class Normalizer(ast.NodeTransformer):
             new = ast.Assign(targets=[tgt], value=v.args[2], type_comment=None)
             self.count += 1
             return ast.copy_location(new, node)
+        # N19  D.update({K: V for x in C if c})  ->  for x in C: if c: D[K] = V ;  D.update({'a': 1, ..})  ->  D['a'] = 1 ; ..
+        if isinstance(v, ast.Call) and isinstance(v.func, ast.Attribute) and v.func.attr == 'update' and len(v.args) == 1 \
+                and not v.keywords and isinstance(v.args[0], (ast.DictComp, ast.Dict)) \
+                and all(not isinstance(x, ast.Call) for x in ast.walk(v.func.value)):
+            D = v.func.value
+            a0 = v.args[0]
+            if isinstance(a0, ast.DictComp) and len(a0.generators) == 1 and not a0.generators[0].is_async:
+                g = a0.generators[0]
+                store = ast.Assign(targets=[ast.Subscript(value=copy.deepcopy(D), slice=a0.key, ctx=ast.Store())],
+                                   value=a0.value, type_comment=None)
+                body = [store]
+                for cnd in reversed(g.ifs):
+                    body = [ast.If(test=cnd, body=body, orelse=[])]
+                new = ast.For(target=g.target, iter=g.iter, body=body, orelse=[], type_comment=None)
+                for x in ast.walk(new):
+                    ast.copy_location(x, node)
+                ast.fix_missing_locations(new)
+                self.count += 1
+                return new
+            if isinstance(a0, ast.Dict) and a0.keys and all(k is not None for k in a0.keys):
+                out = []
+                for k, val in zip(a0.keys, a0.values):
+                    st_ = ast.Assign(targets=[ast.Subscript(value=copy.deepcopy(D), slice=k, ctx=ast.Store())], value=val,
+                                     type_comment=None)
+                    ast.copy_location(st_, node)
+                    ast.fix_missing_locations(st_)
+                    out.append(st_)
+                self.count += 1
+                return out
         # N15  d.setdefault(k, []).append(v)  ->  if k in d: d[k].append(v) else: d[k] = [v]   (d, k pure reads)
         if isinstance(v, ast.Call) and isinstance(v.func, ast.Attribute) and v.func.attr == 'append' and len(v.args) == 1 \
                 and not v.keywords and isinstance(v.func.value, ast.Call) and isinstance(v.func.value.func, ast.Attribute) \
@@ -1106,12 +1142,63 @@ def _append_loops(tree) -> int:
 
 
 
+# ---------------------------------------------------------------------------------------------- N18
+def _unfold_partials(tree) -> int:
+    """f = functools.partial(g, a, b=c)  (f bound once in the function, a / c plain names or constants that are not
+    re-assigned)   ->   every call f(x, y) becomes g(a, x, y, b=c); the binding goes when nothing else uses f"""
+    count = 0
+    for fn in ast.walk(tree):
+        if not isinstance(fn, (ast.FunctionDef, ast.AsyncFunctionDef)):
+            continue
+        stores = {}
+        for n in ast.walk(fn):
+            if isinstance(n, ast.Name) and isinstance(n.ctx, (ast.Store, ast.Del)):
+                stores[n.id] = stores.get(n.id, 0) + 1
+        for blk_owner in ast.walk(fn):
+            for fld in ('body', 'orelse', 'finalbody'):
+                blk = getattr(blk_owner, fld, None)
+                if not (isinstance(blk, list) and blk and isinstance(blk[0], ast.stmt)):
+                    continue
+                for st in list(blk):
+                    if not (isinstance(st, ast.Assign) and len(st.targets) == 1 and isinstance(st.targets[0], ast.Name)
+                            and isinstance(st.value, ast.Call) and st.value.args):
+                        continue
+                    c = st.value
+                    is_partial = (isinstance(c.func, ast.Name) and c.func.id == 'partial') or (
+                        isinstance(c.func, ast.Attribute) and c.func.attr == 'partial'
+                        and isinstance(c.func.value, ast.Name) and c.func.value.id == 'functools')
+                    nm = st.targets[0].id
+                    if not is_partial or stores.get(nm) != 1:
+                        continue
+                    bound = c.args[1:] + [k.value for k in c.keywords]
+                    if not all(isinstance(a, (ast.Name, ast.Constant)) or (isinstance(a, ast.Attribute) and isinstance(a.value, ast.Name))
+                               for a in bound):
+                        continue
+                    if any(isinstance(a, ast.Name) and stores.get(a.id, 0) > 1 for a in bound):
+                        continue
+                    target_fn = c.args[0]
+                    uses = [n for n in ast.walk(fn) if isinstance(n, ast.Name) and n.id == nm and isinstance(n.ctx, ast.Load)]
+                    calls = [n for n in ast.walk(fn) if isinstance(n, ast.Call) and isinstance(n.func, ast.Name) and n.func.id == nm]
+                    for call in calls:
+                        call.func = copy.deepcopy(target_fn)
+                        call.args = [copy.deepcopy(a) for a in c.args[1:]] + call.args
+                        call.keywords = [copy.deepcopy(k) for k in c.keywords] + call.keywords
+                        count += 1
+                    if len(calls) == len(uses):
+                        blk.remove(st)
+                        if not blk:
+                            blk.append(ast.copy_location(ast.Pass(), st))
+    return count
+
+
+
 def normalize(tree: ast.Module, inline: bool = True) -> ast.Module:
     ninl = 0
     if inline:
         from .inline import inline_helpers
         ninl = inline_helpers(tree)
     nfold = _fold_named_constants(tree)
+    nfold += _unfold_partials(tree)
     n = Normalizer()
     tree = n.visit(tree)
     n.count += nfold
